@@ -175,6 +175,13 @@ SCOPES = [
     "while (k--) { let x = k; cl(() => x); %s }",
     "do { const x = 1; cl(() => x); %s } while (k--);",
     "if (k) { let x = 1; cl(() => x); %s } else { let y = 2; cl(() => y); %s }",
+    # exits from inside catch / finally blocks that own an environment
+    "try { thrower(); } finally { let y = 2; cl(() => y); %s }",
+    "try { cl(1); } catch (e) { let y = 2; cl(() => y + e); %s } finally { cl(3); }",
+    "try { try { thrower(); } finally { let y = 2; cl(() => y); %s } } finally { cl(4); }",
+    "try { cl(1); } finally { for (let z of a) { cl(() => z); %s } }",
+    "try { cl(1); } finally { with (o) { %s } }",
+    "try { cl(1); } finally { switch (k) { case 1: let q = 1; cl(() => q); %s; default: cl(2); } }",
 ]
 EXITS = ["", "break;", "continue;", "return 1;", "throw 1;", "break L;", "continue L;", "if (k) break; else continue;",
          "yield 1;", "await 1;", "return cl(() => 1);", "k = k ?? 1;"]
@@ -213,4 +220,23 @@ def scope_programs(depth):
                         if depth < 3 and (oi + si + sj + ei) % 4 != 0:
                             continue
                         emit(outer, s1.replace("%s", s2.replace("%s", ex)))
+    return progs
+
+
+def seeded_scope_programs(seed, n):
+    """Random nestings (depth ≤ 3, sequences of two) of the scope forms with random exits in every hole."""
+    rnd = random.Random(seed * 7919 + 13)
+    progs = []
+
+    def hole(d):
+        r = rnd.random()
+        if d <= 0 or r < 0.35:
+            return rnd.choice(EXITS)
+        if r < 0.8:
+            return fill(rnd.choice(SCOPES), lambda: hole(d - 1))
+        return fill(rnd.choice(SCOPES), lambda: hole(d - 1)) + " " + fill(rnd.choice(SCOPES), lambda: hole(d - 1))
+
+    for _ in range(n):
+        outer = rnd.choice(OUTERS)
+        progs.append("var cl = x => x, thrower = () => { throw 1; }; " + fill(outer, lambda: hole(rnd.randint(1, 3))))
     return progs
